@@ -102,6 +102,8 @@ fn history<F: Function<Trace = VmTrace> + MathFunction>(r: &mut Rng, dags: &[Dag
                     let tape = f.float_slice_tape(stg);
                     let out = se.eval(&tape, &cols).unwrap();
                     let no = f.output_count();
+                    if out.len() != no { return Some(format!("step {step} float slice f{k}: the reused evaluator returns {} output arrays for a tape with {no} outputs", out.len())); }
+                    if (0..no).any(|o| out[o].len() != n) { return Some(format!("step {step} float slice f{k}: an output array does not have the requested {n} samples")); }
                     let got: Vec<String> = (0..n).map(|i| fmt_bits(&(0..no).map(|o| out[o][i]).collect::<Vec<f32>>())).collect();
                     let want: Vec<String> = slice_eval(f, vs, &pts).unwrap().iter().map(|r| fmt_bits(r)).collect();
                     if let Some(s) = tape.recycle() { tape_storage.push(s); }
@@ -119,6 +121,8 @@ fn history<F: Function<Trace = VmTrace> + MathFunction>(r: &mut Rng, dags: &[Dag
                     let tape = f.grad_slice_tape(stg);
                     let out = ge.eval(&tape, &cols).unwrap();
                     let no = f.output_count();
+                    if out.len() != no { return Some(format!("step {step} grad slice f{k}: the reused evaluator returns {} output arrays for a tape with {no} outputs", out.len())); }
+                    if (0..no).any(|o| out[o].len() != n) { return Some(format!("step {step} grad slice f{k}: an output array does not have the requested {n} samples")); }
                     let got: Vec<String> = (0..no).flat_map(|o| out[o].iter().map(grad_bits).collect::<Vec<_>>()).collect();
                     let tape2 = f.grad_slice_tape(Default::default());
                     let mut ge2 = F::new_grad_slice_eval();
